@@ -43,25 +43,16 @@ theorem setRemote_offer_ok {st : St} {O : Desc} (ht : O.typ = .offer) (hs : st.s
     (hok : (setRemote st O).2 = .ok ()) :
     ∃ trs na nv, (setRemote st O).1 =
       { st with sig := .haveRemoteOffer, pendRemote := some O, trs := trs, negAudio := na, negVideo := nv } := by
-  unfold setRemote at hok ⊢
-  split
-  · rename_i hp; simp [hp] at hok
-  · rename_i hp
-    simp only [hp, Bool.false_eq_true, if_false] at hok
-    have hd : setDescRemote st O = .ok { st with sig := .haveRemoteOffer, pendRemote := some O } := by
-      unfold setDescRemote; simp [ht, hs]
-    simp only [hd] at hok ⊢
-    obtain ⟨na, nv, e⟩ := engineUpdate_eq O { st with sig := .haveRemoteOffer, pendRemote := some O }
-    rw [e] at hok ⊢
-    split
-    · exact ⟨_, na, nv, rfl⟩
-    · split
-      · exact ⟨_, na, nv, rfl⟩
-      · split
-        · exact ⟨_, na, nv, rfl⟩
-        · split
-          · rename_i h; rw [ht] at h; cases h
-          · exact ⟨_, na, nv, rfl⟩
+  obtain ⟨st1, h1, h2⟩ := setRemote_success hok
+  have hd : setDescRemote st O = .ok { st with sig := .haveRemoteOffer, pendRemote := some O } := by
+    unfold setDescRemote; simp [ht, hs]
+  rw [hd] at h1
+  simp only [Except.ok.injEq] at h1
+  subst h1
+  obtain ⟨na, nv, e⟩ := engineUpdate_eq O { st with sig := .haveRemoteOffer, pendRemote := some O }
+  rcases h2 with ⟨_, h2⟩ | ⟨h, _⟩
+  · rw [h2, e]; exact ⟨_, na, nv, rfl⟩
+  · rw [ht] at h; cases h
 
 /-- setDescription for a remote answer in have-local-offer -/
 def afterRemoteAnswer (st : St) (A : Desc) : St :=
@@ -70,17 +61,16 @@ def afterRemoteAnswer (st : St) (A : Desc) : St :=
 theorem setRemote_answer_ok {st : St} {A : Desc} (ht : A.typ = .answer) (hs : st.sig = .haveLocalOffer)
     (hok : (setRemote st A).2 = .ok ()) :
     ∃ trs na nv, (setRemote st A).1 = { afterRemoteAnswer st A with trs := trs, negAudio := na, negVideo := nv } := by
-  unfold setRemote at hok ⊢
-  split
-  · rename_i hp; simp [hp] at hok
-  · rename_i hp
-    simp only [hp, Bool.false_eq_true, if_false] at hok
-    have hd : setDescRemote st A = .ok (afterRemoteAnswer st A) := by
-      unfold setDescRemote afterRemoteAnswer; simp [ht, hs]
-    simp only [hd] at hok ⊢
-    obtain ⟨na, nv, e⟩ := engineUpdate_eq A (afterRemoteAnswer st A)
-    rw [e] at hok ⊢
-    repeat' (first | exact ⟨_, na, nv, rfl⟩ | split)
+  obtain ⟨st1, h1, h2⟩ := setRemote_success hok
+  have hd : setDescRemote st A = .ok (afterRemoteAnswer st A) := by
+    unfold setDescRemote afterRemoteAnswer; simp [ht, hs]
+  rw [hd] at h1
+  simp only [Except.ok.injEq] at h1
+  subst h1
+  obtain ⟨na, nv, e⟩ := engineUpdate_eq A (afterRemoteAnswer st A)
+  rcases h2 with ⟨_, h2⟩ | ⟨_, h2⟩
+  · rw [h2, e]; exact ⟨_, na, nv, rfl⟩
+  · rw [h2, e]; exact ⟨_, na, nv, rfl⟩
 
 
 theorem register_more (st : St) (d : Desc) :
@@ -271,9 +261,13 @@ theorem exchange_spec {w w' : World} {p : Peer} {O A : Desc} (hs : Synced w) (h 
     have : sq3.remoteDesc = some O' := by rw [hsq3]; rfl
     rw [this] at ho1; exact (Option.some.inj ho1).symm
   rw [hoff] at ho2
-  obtain ⟨_, _, _, _, hsq4⟩ := createAnswer_ok hA
-  obtain ⟨_, _, _, q4c, q4p, q4cr, _⟩ := register_same sq3 A'
-  obtain ⟨n1, n2, n3, _, n5⟩ := register_more sq3 A'
+  obtain ⟨ra, _, _, _, hsq4⟩ := createAnswer_ok hA
+  obtain ⟨_, _, _, _, as5, _, _, as8, as9, _, _, as12⟩ := answerState_same sq3 ra
+  obtain ⟨_, _, _, q4c, q4p, q4cr, _⟩ := register_same (answerState sq3 ra) A'
+  obtain ⟨n1, n2, n3, _, n5⟩ := register_more (answerState sq3 ra) A'
+  rw [as9] at q4cr n5
+  rw [as5] at q4p
+  rw [as8] at n1
   generalize hsq4' : (createAnswer sq3).1 = sq4 at h5 h6 hw'
   have hsq4' := hsq4'.symm
   rw [hsq4] at hsq4'
@@ -615,24 +609,14 @@ theorem remoteTrs_glare (st : St) (d : Desc) (hd : DescOK d) (hg : NoGlare st.tr
     another kind — provided that was so before (e.g. because no transceiver had a mid yet) -/
 theorem setRemote_noGlare (st : St) (d : Desc) (hd : DescOK d) (ht : d.typ = .offer) (hg : NoGlare st.trs d) :
     NoGlare (setRemote st d).1.trs d := by
-  rcases setRemote_shape st d with h | ⟨st1, trs, h1, _⟩
+  rcases setRemote_shape st d with h | ⟨st1, h1, h2⟩
   · rw [h]; exact hg
   · obtain ⟨t1, _⟩ := setDescRemote_same h1
     obtain ⟨t2, _⟩ := engineUpdate_same d st1
     have base : NoGlare (remoteTrs (engineUpdate st1 d) d).1 d :=
       remoteTrs_glare _ d hd (by rw [t2, t1]; exact hg)
-    unfold setRemote
-    split
-    · exact hg
-    · simp only [h1]
-      split
-      · exact base
-      · split
-        · exact base
-        · split
-          · exact base
-          · split
-            · rename_i h; rw [ht] at h; cases h
-            · exact base
+    rcases h2 with h2 | ⟨h, _⟩
+    · rw [h2]; exact base
+    · rw [ht] at h; cases h
 
 end WebrtcVerif.Jsep
